@@ -365,7 +365,8 @@ instance (ln : Item → Str) (it : Item) : Decidable (LineOK ln it) := by
 
 /-- the `tz` argument `from_ical` hands to the decoder of property `k` -/
 def tzArg (k : Str) (params : Params) : Option PVal :=
-  if Gen.datetimeNames.contains k && (Params.get? params nTZID).isSome then Params.get? params nTZID
+  if Gen.datetimeNames.contains k && (Params.get? params ['T','Z','I','D']).isSome then
+    Params.get? params ['T','Z','I','D']
   else none
 
 /-- a stored property name: upper-cased, not BEGIN / END, and not FREEBUSY (whose value the
@@ -391,7 +392,7 @@ instance (dec : Dec) (props : List Entry) : Decidable (PropsOK dec props) := by 
 mutual
 /-- trees on which parse ∘ serialise is exact (up to the order `sorted` imposes) -/
 def WF (dec : Dec) : Comp → Prop
-  | .mk n props subs => upper n = n ∧ escapeChar (escapeChar n) = n ∧ PropsOK dec props ∧ WFs dec subs
+  | .mk n props subs => upper n = n ∧ escapeChar n = n ∧ PropsOK dec props ∧ WFs dec subs
 def WFs (dec : Dec) : List Comp → Prop
   | [] => True
   | c :: cs => WF dec c ∧ WFs dec cs
@@ -509,12 +510,11 @@ theorem decodeStep_ok (dec : Dec) (line k : Str) (v : Val) (hk : NameOK k) (hv :
     decodeStep dec line k v.params v.text = some [v.text] := by
   obtain ⟨hu, _, _, hf⟩ := hk
   unfold decodeStep
-  simp only [hraw, ite_self, Gen.fromIcalFreebusyOnUname, Gen.fromIcalDatetimeOnUname, if_true, hu]
+  simp only [hraw, ite_self, Gen.fromIcalFreebusyOnUname, Gen.fromIcalDatetimeOnUname, hu]
   have h1 : (k == ['F','R','E','E','B','U','S','Y']) = false := by simpa [nFREEBUSY] using hf
   simp only [h1, Bool.false_eq_true, if_false]
   have h2 := hv.2
   unfold tzArg at h2
-  simp only [nTZID] at h2
   split
   · next hc => rw [if_pos hc] at h2; rw [h2]; rfl
   · next hc => rw [if_neg hc] at h2; rw [h2]; rfl
@@ -612,5 +612,286 @@ theorem run_entries (dec : Dec) (ln : Item → Str) (es : List Entry) :
       · subst h
         intro heq
         exact hnd.1 x hx heq.symm
+
+/-! ### lookup and serialisation order -/
+
+theorem lookupEntry_some {props : List Entry} {k : Str} {e : Entry} (h : lookupEntry props k = some e) :
+    e.name = k ∧ e ∈ props := by
+  unfold lookupEntry at h
+  have h1 := List.find?_some h
+  exact ⟨by simpa using h1, List.mem_of_find?_eq_some h⟩
+
+theorem lookupEntry_of_mem (props : List Entry) (k : Str) (h : k ∈ props.map (·.name)) :
+    ∃ e, lookupEntry props k = some e := by
+  unfold lookupEntry
+  cases hf : props.find? (fun e => e.name == k) with
+  | some e => exact ⟨e, rfl⟩
+  | none =>
+    rw [List.find?_eq_none] at hf
+    obtain ⟨e, he, hk⟩ := List.mem_map.mp h
+    exact absurd (by simpa using hk) (hf e he)
+
+theorem entryItems_eq (props : List Entry) (k : Str) :
+    entryItems props k = ((lookupEntry props k).map entryToks).getD [] := by
+  unfold entryItems
+  cases hf : lookupEntry props k with
+  | none => unfold lookupEntry at hf; rw [hf]; rfl
+  | some e =>
+    have hn := (lookupEntry_some hf).1
+    unfold lookupEntry at hf
+    rw [hf]
+    simp [entryToks, hn]
+
+theorem flatMap_entryItems (props : List Entry) (L : List Str) :
+    L.flatMap (entryItems props) = (L.filterMap (lookupEntry props)).flatMap entryToks := by
+  induction L with
+  | nil => rfl
+  | cons k L ih =>
+    simp only [List.flatMap_cons, ih, entryItems_eq]
+    cases hf : lookupEntry props k with
+    | none => simp [hf]
+    | some e => simp [hf]
+
+theorem propNames_perm (b : Bool) (n : Str) (props : List Entry) :
+    (propNames b n props).Perm (props.map (·.name)) := by
+  unfold propNames
+  cases b
+  · simp
+  · simpa using CDict.canonsort_perm_keys _ _
+
+theorem mem_propNames (b : Bool) (n : Str) (props : List Entry) (k : Str) :
+    k ∈ propNames b n props ↔ k ∈ props.map (·.name) := (propNames_perm b n props).mem_iff
+
+/-- names of the looked-up entries, when every name is stored -/
+theorem map_name_filterMap_lookup (props : List Entry) (L : List Str) (h : ∀ k ∈ L, k ∈ props.map (·.name)) :
+    (L.filterMap (lookupEntry props)).map (·.name) = L := by
+  induction L with
+  | nil => rfl
+  | cons k L ih =>
+    obtain ⟨e, he⟩ := lookupEntry_of_mem props k (h k List.mem_cons_self)
+    simp only [List.filterMap_cons, he, List.map_cons, (lookupEntry_some he).1]
+    rw [ih (fun x hx => h x (List.mem_cons_of_mem _ hx))]
+
+theorem map_name_sortedProps (b : Bool) (n : Str) (props : List Entry) :
+    (sortedProps b n props).map (·.name) = propNames b n props :=
+  map_name_filterMap_lookup props _ (fun k hk => (mem_propNames b n props k).mp hk)
+
+theorem mem_sortedProps {b : Bool} {n : Str} {props : List Entry} {e : Entry} (h : e ∈ sortedProps b n props) :
+    e ∈ props := by
+  unfold sortedProps at h
+  obtain ⟨k, _, hk⟩ := List.mem_filterMap.mp h
+  exact (lookupEntry_some hk).2
+
+/-- looking up in the reordered entries finds the same entry -/
+theorem lookup_filterMap_lookup (props : List Entry) (L : List Str) (h : ∀ k ∈ L, k ∈ props.map (·.name)) :
+    ∀ k ∈ L, lookupEntry (L.filterMap (lookupEntry props)) k = lookupEntry props k := by
+  induction L with
+  | nil => intro k hk; cases hk
+  | cons k0 L ih =>
+    intro k hk
+    obtain ⟨e0, he0⟩ := lookupEntry_of_mem props k0 (h k0 List.mem_cons_self)
+    have hn := (lookupEntry_some he0).1
+    simp only [List.filterMap_cons, he0]
+    by_cases hkk : k0 = k
+    · subst hkk
+      rw [he0]
+      unfold lookupEntry
+      simp [hn]
+    · have hk' : k ∈ L := by
+        rcases List.mem_cons.mp hk with h1 | h1
+        · exact absurd h1.symm hkk
+        · exact h1
+      rw [← ih (fun x hx => h x (List.mem_cons_of_mem _ hx)) k hk']
+      unfold lookupEntry
+      simp [hn, hkk]
+
+theorem lookup_sortedProps (b : Bool) (n : Str) (props : List Entry) (k : Str) (hk : k ∈ props.map (·.name)) :
+    lookupEntry (sortedProps b n props) k = lookupEntry props k :=
+  lookup_filterMap_lookup props _ (fun k hk => (mem_propNames b n props k).mp hk) k
+    ((mem_propNames b n props k).mpr hk)
+
+theorem filterMap_congr_mem {α β : Type} (f g : α → Option β) (l : List α) (h : ∀ a ∈ l, f a = g a) :
+    l.filterMap f = l.filterMap g := by
+  induction l with
+  | nil => rfl
+  | cons a l ih =>
+    simp only [List.filterMap_cons, h a List.mem_cons_self]
+    rw [ih (fun x hx => h x (List.mem_cons_of_mem _ hx))]
+
+/-- the serialisation order of the reordered entries is the same order -/
+theorem propNames_sortedProps (b : Bool) (n : Str) (props : List Entry) :
+    propNames b n (sortedProps b n props) = propNames b n props := by
+  have hm := map_name_sortedProps b n props
+  cases b
+  · simp only [propNames, Bool.false_eq_true, if_false] at hm ⊢
+    exact hm
+  · simp only [propNames, if_true] at hm ⊢
+    rw [hm]
+    exact CDict.canonsort_perm' _ _ _ (CDict.canonsort_perm_keys _ _)
+
+theorem sortedProps_idem (b : Bool) (n : Str) (props : List Entry) :
+    sortedProps b n (sortedProps b n props) = sortedProps b n props := by
+  unfold sortedProps
+  rw [show propNames b n ((propNames b n props).filterMap (lookupEntry props)) = propNames b n props from
+    propNames_sortedProps b n props]
+  apply filterMap_congr_mem
+  intro k hk
+  exact lookup_sortedProps b n props k ((mem_propNames b n props k).mp hk)
+
+theorem sortedProps_false_of_nodup (n : Str) (props : List Entry) (h : (props.map (·.name)).Nodup) :
+    sortedProps false n props = props := by
+  unfold sortedProps propNames
+  simp only [Bool.false_eq_true, if_false]
+  induction props with
+  | nil => rfl
+  | cons e es ih =>
+    simp only [List.map_cons, List.nodup_cons, List.mem_map, not_exists, not_and] at h
+    have h0 : lookupEntry (e :: es) e.name = some e := by simp [lookupEntry]
+    simp only [List.map_cons, List.filterMap_cons, h0]
+    congr 1
+    refine Eq.trans ?_ (ih h.2)
+    apply filterMap_congr_mem
+    intro k hk
+    obtain ⟨x, hx, hxk⟩ := List.mem_map.mp hk
+    have : e.name ≠ k := fun heq => h.1 x hx (by rw [hxk]; exact heq.symm)
+    unfold lookupEntry
+    simp [this]
+
+/-- with distinct names the reordered entries are a permutation of the entries -/
+theorem sortedProps_perm (b : Bool) (n : Str) (props : List Entry) (h : (props.map (·.name)).Nodup) :
+    (sortedProps b n props).Perm props := by
+  have h0 := sortedProps_false_of_nodup n props h
+  unfold sortedProps at h0 ⊢
+  simp only [propNames, Bool.false_eq_true, if_false] at h0
+  have := (propNames_perm b n props).filterMap (lookupEntry props)
+  rw [h0] at this
+  exact this
+
+/-- the items of the reordered entries -/
+theorem entryItems_sortedProps (b : Bool) (n : Str) (props : List Entry) :
+    (propNames b n (sortedProps b n props)).flatMap (entryItems (sortedProps b n props)) =
+      (propNames b n props).flatMap (entryItems props) := by
+  rw [propNames_sortedProps]
+  rw [List.flatMap_def, List.flatMap_def]
+  congr 1
+  apply List.map_congr_left
+  intro k hk
+  rw [entryItems_eq, entryItems_eq, lookup_sortedProps b n props k ((mem_propNames b n props k).mp hk)]
+
+theorem propsOK_sortedProps (dec : Dec) (b : Bool) (n : Str) (props : List Entry) (h : PropsOK dec props) :
+    PropsOK dec (sortedProps b n props) := by
+  refine ⟨?_, fun e he => h.2 e (mem_sortedProps he)⟩
+  rw [map_name_sortedProps]
+  exact (propNames_perm b n props).nodup_iff.mpr h.1
+
+mutual
+theorem sortedTree_idem (b : Bool) : ∀ t : Comp, sortedTree b (sortedTree b t) = sortedTree b t
+  | .mk n props subs => by
+    simp only [sortedTree]
+    rw [sortedProps_idem, sortedTrees_idem b subs]
+theorem sortedTrees_idem (b : Bool) : ∀ l : List Comp, sortedTrees b (sortedTrees b l) = sortedTrees b l
+  | [] => rfl
+  | c :: cs => by
+    simp only [sortedTrees]
+    rw [sortedTree_idem b c, sortedTrees_idem b cs]
+end
+
+mutual
+theorem items_sortedTree (b : Bool) : ∀ t : Comp, items b (sortedTree b t) = items b t
+  | .mk n props subs => by
+    simp only [sortedTree, items]
+    rw [entryItems_sortedProps, itemsList_sortedTrees b subs]
+theorem itemsList_sortedTrees (b : Bool) : ∀ l : List Comp, itemsList b (sortedTrees b l) = itemsList b l
+  | [] => rfl
+  | c :: cs => by
+    simp only [sortedTrees, itemsList]
+    rw [items_sortedTree b c, itemsList_sortedTrees b cs]
+end
+
+mutual
+theorem sortedTree_false (dec : Dec) : ∀ t : Comp, WF dec t → sortedTree false t = t
+  | .mk n props subs, h => by
+    simp only [WF] at h
+    simp only [sortedTree]
+    rw [sortedProps_false_of_nodup n props h.2.2.1.1, sortedTrees_false dec subs h.2.2.2]
+theorem sortedTrees_false (dec : Dec) : ∀ l : List Comp, WFs dec l → sortedTrees false l = l
+  | [], _ => rfl
+  | c :: cs, h => by
+    simp only [WFs] at h
+    simp only [sortedTrees]
+    rw [sortedTree_false dec c h.1, sortedTrees_false dec cs h.2]
+end
+
+mutual
+theorem WF_sortedTree (dec : Dec) (b : Bool) : ∀ t : Comp, WF dec t → WF dec (sortedTree b t)
+  | .mk n props subs, h => by
+    simp only [WF] at h
+    simp only [sortedTree, WF]
+    exact ⟨h.1, h.2.1, propsOK_sortedProps dec b n props h.2.2.1, WFs_sortedTrees dec b subs h.2.2.2⟩
+theorem WFs_sortedTrees (dec : Dec) (b : Bool) : ∀ l : List Comp, WFs dec l → WFs dec (sortedTrees b l)
+  | [], _ => by simp [sortedTrees, WFs]
+  | c :: cs, h => by
+    simp only [WFs] at h
+    simp only [sortedTrees, WFs]
+    exact ⟨WF_sortedTree dec b c h.1, WFs_sortedTrees dec b cs h.2⟩
+end
+
+/-! ### the key lemma: parsing the items of a tree attaches the tree -/
+
+theorem run_props (dec : Dec) (ln : Item → Str) (b : Bool) (n : Str) (props : List Entry)
+    (hok : PropsOK dec props)
+    (hl : ∀ it ∈ (propNames b n props).flatMap (entryItems props), LineOK ln it)
+    (cn : Str) (rest comps : List PComp) :
+    prun dec ⟨.mk cn [] [] [] :: rest, comps, false⟩
+        (((propNames b n props).flatMap (entryItems props)).map ln) =
+      some ⟨.mk cn (sortedProps b n props) [] [] :: rest, comps, false⟩ := by
+  rw [flatMap_entryItems] at hl ⊢
+  have hok' := propsOK_sortedProps dec b n props hok
+  have := run_entries dec ln (sortedProps b n props) [] cn [] [] rest comps hok'.2 hl hok'.1
+    (fun e' he' => by cases he')
+  simpa [sortedProps] using this
+
+mutual
+theorem run_items_aux (dec : Dec) (ln : Item → Str) (b : Bool) : ∀ (t : Comp) (st : PState),
+    WF dec t → (∀ it ∈ items b t, LineOK ln it) → st.stopped = false →
+    prun dec st ((items b t).map ln) = some (attach st (sortedTree b t).toP)
+  | .mk n props subs, st, hwf, hl, hs => by
+    simp only [WF] at hwf
+    obtain ⟨hu, hesc, hprops, hsubs⟩ := hwf
+    simp only [items, List.mem_cons, List.mem_append, List.not_mem_nil, or_false] at hl
+    rcases st with ⟨stack, comps, stopped⟩
+    simp only at hs
+    subst hs
+    -- BEGIN
+    have hB := hl (beginItem n) (Or.inl rfl)
+    have hE := hl (endItem n) (Or.inr (Or.inr rfl))
+    simp only [items, List.map_cons, List.map_append, List.map_nil]
+    rw [prun_of_step_some dec _ _ _ _
+      (pstep_begin dec _ _ nBEGIN [] (escapeChar n) rfl hB.1 hB.2.1 (by decide))]
+    simp only [hesc, hu]
+    -- properties
+    rw [prun_append, prun_append]
+    rw [run_props dec ln b n props hprops (fun it hit => hl it (Or.inr (Or.inl (Or.inl hit)))) n stack comps]
+    simp only [Option.bind_some]
+    -- subcomponents
+    rw [run_itemsList_aux dec ln b subs _ hsubs (fun it hit => hl it (Or.inr (Or.inl (Or.inr hit)))) rfl]
+    simp only [Option.bind_some, attachL_open, List.nil_append]
+    -- END
+    rw [prun_cons, pstep_end dec _ _ nEND [] (escapeChar n) rfl hE.1 hE.2.1 (by decide)]
+    simp only [sortedTree, Comp.toP, attach]
+    rcases stack with _ | ⟨⟨pn, pp, ps, pe⟩, r⟩ <;> rfl
+theorem run_itemsList_aux (dec : Dec) (ln : Item → Str) (b : Bool) : ∀ (cs : List Comp) (st : PState),
+    WFs dec cs → (∀ it ∈ itemsList b cs, LineOK ln it) → st.stopped = false →
+    prun dec st ((itemsList b cs).map ln) = some (attachL st (Comp.toPs (sortedTrees b cs)))
+  | [], st, _, _, _ => by simp [itemsList, prun, sortedTrees, Comp.toPs, attachL]
+  | c :: cs, st, hwf, hl, hs => by
+    simp only [WFs] at hwf
+    simp only [itemsList, List.mem_append] at hl
+    simp only [itemsList, List.map_append, sortedTrees, Comp.toPs, attachL]
+    rw [prun_append, run_items_aux dec ln b c st hwf.1 (fun it hit => hl it (Or.inl hit)) hs]
+    simp only [Option.bind_some]
+    exact run_itemsList_aux dec ln b cs _ hwf.2 (fun it hit => hl it (Or.inr hit))
+      (by rw [attach_stopped]; exact hs)
+end
 
 end ICal
